@@ -182,6 +182,28 @@ std::vector<Scenario> scenarios() {
     Scenario::Op rs{"reset()", [](void* o) { static_cast<T*>(o)->reset(); return std::string("-"); }};
     Scenario::Op ga{"getAverage()", [](void* o) { return dbits(static_cast<T*>(o)->getAverage()); }}, ia{"isAvailable()", [](void* o) { return std::to_string((int)static_cast<T*>(o)->isAvailable()); }};
     s.threads = {{up(1), up(3), rs, up(5)}, {ia, ga, ia}}; v.push_back(s); }
+  { Scenario s; s.name = "OnlineVariance(W=2): updater (update,reset,update,update), reader (isAvailable,getVariance,getAverage)"; using T = OnlineVariance;
+    s.make = []() { return sp(new T(1.0, 2)); };
+    auto up = [](double x) { return Scenario::Op{"update(" + std::to_string((int)x) + ")", [x](void* o) { static_cast<T*>(o)->update(x); return std::string("-"); }}; };
+    Scenario::Op rs{"reset()", [](void* o) { static_cast<T*>(o)->reset(); return std::string("-"); }};
+    Scenario::Op gv{"getVariance()", [](void* o) { return dbits(static_cast<T*>(o)->getVariance()); }}, ga{"getAverage()", [](void* o) { return dbits(static_cast<T*>(o)->getAverage()); }}, ia{"isAvailable()", [](void* o) { return std::to_string((int)static_cast<T*>(o)->isAvailable()); }};
+    s.threads = {{up(1), rs, up(3), up(5)}, {ia, gv, ga}}; v.push_back(s); }
+  { Scenario s; s.name = "SharedVariable<Pair> through operator= and the conversion operator: writer (2 assignments), 2 readers (2+1 conversions)"; using T = SharedVariable<Pair>;
+    s.make = []() { Pair p; p.a = 7; p.b = 7; return sp(new T(p)); };
+    auto as = [](long k) { return Scenario::Op{"operator=(" + std::to_string(k) + ")", [k](void* o) { Pair p; p.a = k; p.b = k; *static_cast<T*>(o) = p; return std::string("-"); }}; };
+    Scenario::Op cv{"operator T()", [](void* o) { Pair p = *static_cast<T*>(o); return std::to_string(p.a) + "," + std::to_string(p.b); }};
+    s.threads = {{as(1), as(2)}, {cv, cv}, {cv}}; v.push_back(s); }
+  { Scenario s; s.name = "SharedOptionalVariable<int> constructed with a value: 1 producer (2 stores), 2 consumers (2+2 consumes)"; using T = SharedOptionalVariable<int>;
+    s.make = []() { return sp(new T(9)); };
+    auto stf = [](int k) { return Scenario::Op{"store(" + std::to_string(k) + ")", [k](void* o) { static_cast<T*>(o)->store(k); return std::string("-"); }}; };
+    Scenario::Op co{"consume()", [](void* o) { auto r = static_cast<T*>(o)->consume(); return r ? std::to_string(*r) : std::string("none"); }};
+    s.threads = {{stf(1), stf(2)}, {co, co}, {co, co}}; v.push_back(s); }
+  { Scenario s; s.name = "CheckupGreaterThan: evaluator (timeout,evaluate,timeout,evaluate), reader (2 report copies)"; using CK = CheckupGreaterThan<double>;
+    s.make = []() { return sp(new CK("q", 10.0, 1.0)); };
+    Scenario::Op to{"timeout()", [](void* o) { static_cast<CK*>(o)->timeout(); return std::string("-"); }};
+    auto ev = [](double x) { return Scenario::Op{"evaluate(" + std::to_string((int)x) + ")", [x](void* o) { return std::to_string((int)static_cast<CK*>(o)->evaluate(x)); }}; };
+    Scenario::Op gr{"getReport()", [](void* o) { DiagnosticReport r = static_cast<CK*>(o)->getReport(); return rep(r); }};
+    s.threads = {{to, ev(5), to, ev(20)}, {gr, gr}}; v.push_back(s); }
   add_checkup<CheckupEqualTo<double>>(v, "CheckupEqualTo: evaluator (evaluate,evaluate,timeout), reader (2 report copies)");
   add_checkup<CheckupGreaterThan<double>>(v, "CheckupGreaterThan: evaluator (evaluate,evaluate,timeout), reader (2 report copies)");
   add_checkup<CheckupLowerThan<double>>(v, "CheckupLowerThan: evaluator (evaluate,evaluate,timeout), reader (2 report copies)");
